@@ -2,8 +2,9 @@
 //! nothing invalid gets in.
 //!
 //! SCOPE: every FieldType of the grammar to a nesting depth, for each type
-//! every generated valid value and every single mutation of it, through both
-//! write entry points (`Document::set_field`, `Document::try_from`) and the
+//! every generated valid value and every single mutation of it, through the
+//! write entry points (`Document::set_field`, `Document::try_from`,
+//! `Document::set_field_as`) and the
 //! read-back path (CBOR bytes -> `DocumentOwned` -> `Document::try_from_doc`),
 //! compared with the reference model in `vschema::model`.
 
@@ -215,7 +216,7 @@ fn explore_type(ft: &Ft, aliens: &[Fv], mutate_all: bool, t: &mut Tally, values_
     for (vi, v) in vals.iter().enumerate() {
         *values_n += 1;
         t.distinct.push(util::fnv64(format!("{ft:?}|{v:?}").as_bytes()));
-        for entry in [Entry::Set, Entry::TryFrom] {
+        for entry in [Entry::Set, Entry::TryFrom, Entry::SetAs] {
             let case = Case {
                 ft,
                 schema: &schema,
@@ -232,7 +233,7 @@ fn explore_type(ft: &Ft, aliens: &[Fv], mutate_all: bool, t: &mut Tally, values_
         }
         for m in values::mutations(v, aliens) {
             *mutations_n += 1;
-            for entry in [Entry::Set, Entry::TryFrom] {
+            for entry in [Entry::Set, Entry::TryFrom, Entry::SetAs] {
                 let case = Case {
                     ft,
                     schema: &schema,
@@ -303,7 +304,11 @@ fn main() {
         } else {
             codec::dec(&r["value"]).expect("value")
         };
-        let entry = if r["entry"] == "try_from" { Entry::TryFrom } else { Entry::Set };
+        let entry = match r["entry"].as_str() {
+            Some("try_from") => Entry::TryFrom,
+            Some("set_field_as") => Entry::SetAs,
+            _ => Entry::Set,
+        };
         let schema = schema_for(&ft);
         let mut t = Tally::default();
         let desc = r["how"].as_str().unwrap_or("replay").to_string();
@@ -338,7 +343,7 @@ fn main() {
         for p in &probes {
             let schema = schema_for(&p.ft);
             let desc = format!("budget:{}", p.name);
-            for entry in [Entry::Set, Entry::TryFrom] {
+            for entry in [Entry::Set, Entry::TryFrom, Entry::SetAs] {
                 let case = Case {
                     ft: &p.ft,
                     schema: &schema,
@@ -396,7 +401,7 @@ fn main() {
         format!("{grammar_txt}: depth 1 and 2 complete ({n1} + {n2} types); depth 3 ({n3} types) = the 6 unary constructors over all depth-2 types + tuple / 2-key map over pairs of the 10 representative types {reps} touching depth 2; depth 4 ({n4} types) = unary constructors over the depth-3 types built from representative children + binary constructors over pairs of the 15 representative types (those 10 + the five constructors one level up) touching depth 3")
     });
     run.rule(
-        "per type: valid values cover every leaf boundary value (i64::MIN,-1,0,i64::MAX; 0,i64::MAX,i64::MAX+1,u64::MAX; +-0.0, subnormal, f32::MAX, 2.71, extremes, infinities; 11 bf16 edge bit patterns incl. NaN patterns; empty/non-empty containers; Null/absent for Option) at least once per container position; per valid value (quick, depth >= 3: for three values per type — second, middle and the fully populated last one; otherwise for every value) EVERY single mutation: each node swapped with each of 27 alien values (all variants, Null, out-of-range integers, NaN, non-read-back floats, read-back shapes), array drop-last/append, map remove-each-key/extra key of each key kind; each case through set_field and try_from (+Schema::validate + CBOR bytes), accepted ones read back via DocumentOwned/try_from_doc and compared in the declared variant (bit-exact); complexity-budget probes at limit / limit+1 (nodes 16384, array 4096, map 4096) and nesting towers of height 62..67, 70, 100, 128, 130, 140 (arrays, JSON objects, mixed JSON object/array, FieldValue maps, mixed FieldValue map/array) in typed, untyped, Json and shifted-depth positions; distinct = (type, valid value) pairs and budget probes",
+        "per type: valid values cover every leaf boundary value (i64::MIN,-1,0,i64::MAX; 0,i64::MAX,i64::MAX+1,u64::MAX; +-0.0, subnormal, f32::MAX, 2.71, extremes, infinities; 11 bf16 edge bit patterns incl. NaN patterns; empty/non-empty containers; Null/absent for Option) at least once per container position; per valid value (quick, depth >= 3: for three values per type — second, middle and the fully populated last one; otherwise for every value) EVERY single mutation: each node swapped with each of 27 alien values (all variants, Null, out-of-range integers, NaN, non-read-back floats, read-back shapes), array drop-last/append, map remove-each-key/extra key of each key kind; each case through the three write entries Document::set_field, Document::try_from and Document::set_field_as (accepted = the entry returns a Document and it serialises to CBOR), accepted ones read back via DocumentOwned/try_from_doc and compared in the declared variant (bit-exact), then try_into / get_field_as; complexity-budget probes at limit / limit+1 (nodes 16384, array 4096, map 4096) and nesting towers of height 62..67, 70, 100, 128, 130, 140 (arrays, JSON objects, mixed JSON object/array, FieldValue maps, mixed FieldValue map/array) in typed, untyped, Json and shifted-depth positions; distinct = (type, valid value) pairs and budget probes",
     );
     run.assume("validity is judged by the documented contract: declared variant or a documented read-back shape (U64<=i64::MAX for I64, CBOR/JSON f32 read-backs for F32, u16 bit-pattern arrays for Vector); anything offered to a Json slot other than the Json variant, NaN inside an untyped array and budget verdicts that differ between raw and canonical form are 'unspecified' (accept or reject, but must round-trip if accepted)");
     run.assume("where the schema declares no variant (elements of Array([]), non-Json contents of a Json slot) equality is equality of the documented schema-less form (I64>=0 = U64, F32 = F64 widening, Vector = array of bit patterns, Json = its shape); under Option, Json(null) and Null are the same value");
